@@ -141,6 +141,9 @@ def obligations(tier, seed):
     jb += [ob for ob in profiles.p_facility(thorough, H=H) if "fsk=all" in ob["name"] and "solof=0" in ob["name"] and "fixf=None" in ob["name"]][:2]
     # a task whose work is used up waits (FF / SF) for several steps: its remaining work amount is negative at the pause
     jb += [ob for ob in profiles.wf_cubes(2, ["private"], 3, H=H, name="j2w3", kinds=(2, 3)) if "edges=-" not in ob["name"]]
+    # the task lists its workplaces in another order than the organization does, and the workplaces tie on free space
+    for ob in [ob for ob in profiles.p_product("F1", thorough, H=H) if "wps=2/links=none/wprule=0" in ob["name"] and "/fs" in ob["name"]]:  # (the per-task workplace rule is not part of the saved format: known finding of C16)
+        jb.append(dict(ob, name=ob["name"] + "/wp-order-reversed", cube={"spec": dict(ob["cube"]["spec"], wp_target_order="reversed")}))
     for ob in jb:
         ob = dict(ob)
         if not thorough:
